@@ -480,7 +480,8 @@ def procPayload (C : Crypto) (L : Loc) (auth : Bool) : Nat → Ep → Bytes → 
 /-- `handle_decrypted_record` -/
 def onRecord (C : Crypto) (L : Loc) (e : Ep) (ctype : Nat) (auth : Bool) (payload : Bytes) : R :=
   if ctype = dtlsCtChangeCipherSpec then ok { e with ctx := { e.ctx with readEpoch := min (e.ctx.readEpoch + 1) 65535 } }
-  else if ctype = dtlsCtApplicationData then ok e [.deliver payload]
+  else if ctype = dtlsCtApplicationData then
+    (if e.conn = .connected then ok e [.deliver payload] else ok e)   -- dropped unless Connected
   else if ctype = dtlsCtHandshake then procPayload C L auth (payload.length + 1) e payload
   else if ctype = dtlsCtAlert then
     match payload with
